@@ -245,8 +245,16 @@ def run(prop, tier, replay=None):
             desync.append(item)
         else:
             violations.append(item)
-    # a crash of the session process is an observation (C25 owns it); here it only means the
-    # scenario could not be judged
+    # goroutines of the session still blocked when the bubble ends make synctest panic: the leak
+    # oracle of C13.  Any other crash of the session process is C25's observation; here it only
+    # means the scenario could not be judged.
+    if prop == "C13":
+        for c in list(crashes):
+            if "blocked goroutines remain" in c["output"] or "deadlock: main bubble goroutine has exited" in c["output"]:
+                crashes.remove(c)
+                violations.append({"sig": "C13/goroutines-leaked/blocked-at-session-end",
+                                   "what": "session goroutines still blocked after run() returned in %s" % c["scenario"]["id"],
+                                   "replay": {"scenario": c["scenario"], "output": c["output"][-2500:], "trace": c["partial"]}})
     code, n_new, n_known = vlib.verdict(prop, violations)
     sample = None
     if traces:
